@@ -41,7 +41,12 @@ NONDET_CALLS = ("time.", "random.", "secrets.", "uuid.", "os.urandom", "os.getpi
                 "email.utils.make_msgid", "email.utils.formatdate", "email.utils.localtime", "tempfile.",
                 "os.getcwd", "os.listdir", "os.scandir", "os.walk", "glob.glob", "glob.iglob", "os.getuid", "os.getgid", "os.stat", "os.path.getmtime",
                 "os.path.getctime", "os.path.getatime", "os.path.expanduser", "os.cpu_count", "sys.getrefcount", "gc.", "weakref.",
-                "socket.gethostname", "socket.getfqdn", "platform.", "getpass.getuser", "threading.get_ident", "threading.current_thread")
+                "socket.gethostname", "socket.getfqdn", "platform.", "getpass.getuser", "threading.get_ident", "threading.current_thread",
+                # the process environment / locale / terminal (extraction is a function of (bytes, path) only)
+                "os.getenv", "os.getenvb", "os.environb", "locale.", "sys.getfilesystemencoding", "os.get_terminal_size", "shutil.get_terminal_size",
+                "os.uname", "pathlib.Path.cwd", "pathlib.Path.home",
+                # completion order of concurrent work
+                "concurrent.futures.as_completed", "concurrent.futures.wait")
 
 
 def canonical(mod, e):
@@ -360,6 +365,25 @@ def sorted_before_use(mod, fnode, par, node):
     return ("later", None, None) if anywhere else None
 
 
+LOG_METHODS = {"debug", "info", "warning", "warn", "error", "exception", "critical", "log"}
+
+
+def _in_message(par, n):
+    """The expression is (part of) the message of a logger call, a raised exception or an assert: PY-LOG, not part of any result."""
+    cur = n
+    for _ in range(12):
+        cur = par.get(id(cur))
+        if cur is None or isinstance(cur, (ast.FunctionDef, ast.AsyncFunctionDef, ast.Lambda)):
+            return False
+        if isinstance(cur, (ast.Raise, ast.Assert)):
+            return True
+        if isinstance(cur, ast.Call) and isinstance(cur.func, ast.Attribute) and cur.func.attr in LOG_METHODS:
+            return True
+        if isinstance(cur, ast.stmt):
+            return False
+    return False
+
+
 def order_sites(mod, q, fnode, summ=None, keyed_out=None):
     """Order-exposing uses of unordered values: [(node, description, definite)].
     `keyed_out` (list) receives one record per sorted/min/max/.sort over an unordered value: (node, status, text, key)."""
@@ -410,6 +434,11 @@ def order_sites(mod, q, fnode, summ=None, keyed_out=None):
                 add(n, f"{f.id}(<set>)")
             if isinstance(f, ast.Attribute) and f.attr == "join" and n.args and is_u(n.args[0], known):
                 out.append((n, "str.join(<set>)", True))
+            if isinstance(f, ast.Name) and f.id in ("str", "repr", "format", "ascii") and n.args and is_u(n.args[0], known) and not _in_message(par, n):
+                out.append((n, f"{f.id}(<set>): the text lists the elements in iteration order", True))
+            if isinstance(f, ast.Attribute) and f.attr == "format" and isinstance(f.value, (ast.Constant, ast.JoinedStr)) and not _in_message(par, n) \
+                    and any(is_u(a_, known) for a_ in list(n.args) + [k_.value for k_ in n.keywords]):
+                out.append((n, "str.format(<set>): the text lists the elements in iteration order", True))
             if isinstance(f, ast.Attribute) and f.attr == "pop" and is_u(f.value, known) and not n.args:
                 out.append((n, "<set>.pop()", True))
             if isinstance(f, ast.Attribute) and f.attr == "extend" and n.args and is_u(n.args[0], known):
@@ -436,6 +465,12 @@ def order_sites(mod, q, fnode, summ=None, keyed_out=None):
                 out.append((n, "for-loop over <set> whose body is not recognised as order-independent" + (f" ({cb})" if cb else ""), False))
         elif isinstance(n, ast.Starred) and is_u(n.value, known):
             out.append((n, "*<set>", True))
+        elif (isinstance(n, ast.FormattedValue) and is_u(n.value, known)) or \
+                (isinstance(n, ast.BinOp) and isinstance(n.op, ast.Mod) and isinstance(n.left, (ast.Constant, ast.JoinedStr)) and
+                 (is_u(n.right, known) or (isinstance(n.right, ast.Tuple) and any(is_u(x, known) for x in n.right.elts)))):
+            # the text of a set lists its elements in iteration order (messages of loggers / exceptions are not part of a result)
+            if not _in_message(par, n):
+                out.append((n, "text of a <set> (f-string / % formatting)", True))
         elif isinstance(n, (ast.Assign,)) and isinstance(n.value, ast.Name) is False and isinstance(n.targets[0], (ast.Tuple, ast.List)) and is_u(n.value, known):
             out.append((n, "tuple unpacking of <set>", True))
     # comprehension directly inside an order-insensitive consumer is fine: sorted(x for x in s), any(...), set(...)
@@ -484,6 +519,46 @@ def _only_looked_up(mod, fnode, target):
     return True
 
 
+def _keyed_store_competes(loop, key, value):
+    """A store `d[key] = value` / `d.setdefault(key, value)` in the body of a loop over an unordered collection gives the same
+    mapping for every iteration order when distinct elements never compete for one key with different values: the key determines
+    the element (the loop variable itself, or a tuple / f-string-free expression that contains it as a component), or the value
+    does not depend on the element.  Otherwise the reason (which element wins depends on the iteration order); None when fine.
+    Per-iteration temporaries count as element-dependent; a key that is such a temporary is followed to its single definition."""
+    tnames = {n.id for n in ast.walk(loop.target) if isinstance(n, ast.Name)}
+    assigned = {}
+    for b in loop.body:
+        for n in ast.walk(b):
+            if isinstance(n, ast.Name) and isinstance(n.ctx, ast.Store):
+                assigned.setdefault(n.id, []).append(n)
+    dependent = tnames | set(assigned)
+    if not any(isinstance(n, ast.Name) and n.id in dependent for n in ast.walk(value)):
+        return None                                   # every competitor stores the same thing
+    single = isinstance(loop.target, ast.Name)
+
+    def determines(e, hops=0):
+        if isinstance(e, ast.Name):
+            if single and e.id in tnames and e.id not in assigned:
+                return True
+            if e.id in assigned and len(assigned[e.id]) == 1 and hops < 3:
+                for b in loop.body:
+                    if isinstance(b, ast.Assign) and len(b.targets) == 1 and b.targets[0] is assigned[e.id][0]:
+                        return determines(b.value, hops + 1)
+            return False
+        if isinstance(e, ast.Tuple):
+            if not single and {x.id for x in e.elts if isinstance(x, ast.Name)} >= tnames and not (tnames & set(assigned)):
+                return True                            # for a, b in pairs: d[(a, b)] = ...
+            return any(determines(x, hops) for x in e.elts)
+        return False
+
+    if determines(key):
+        return None
+    if not single and isinstance(loop.target, ast.Tuple) and isinstance(key, ast.Name) and key.id in tnames and key.id not in assigned \
+            and isinstance(loop.iter, ast.Call) and isinstance(loop.iter.func, ast.Attribute) and loop.iter.func.attr == "items":
+        return None                                    # for k, v in mapping.items(): keys of a mapping are distinct
+    return f"key {ast.unparse(key)[:40]} does not determine the element and the stored value depends on it -- which element wins follows the <set> order"
+
+
 def _commutative_body(stmts, fnode=None, loop=None, collected=None, mod=None):
     """True when executing the body for the elements in any order gives the same final state; otherwise a short reason.
     `collected` (a set) receives the names of local lists the body appends to: their order is the iteration order."""
@@ -504,6 +579,12 @@ def _commutative_body(stmts, fnode=None, loop=None, collected=None, mod=None):
                        for x in ast.walk(fnode) if isinstance(x, ast.Name) and x.id == tg.id and isinstance(x.ctx, ast.Load)):
                     continue
         if isinstance(s, ast.Expr) and isinstance(s.value, ast.Call) and isinstance(s.value.func, ast.Attribute) and s.value.func.attr in COMMUTATIVE_METHODS:
+            c_ = s.value
+            if c_.func.attr == "setdefault" and len(c_.args) == 2 and loop is not None:
+                # d.setdefault(key, value): the FIRST element with that key wins -- order-free only when no two elements compete
+                why = _keyed_store_competes(loop, c_.args[0], c_.args[1])
+                if why:
+                    return f"line {s.lineno}: {ast.unparse(c_.func.value)}.setdefault: {why}"
             continue       # set insertion / removal, dict.setdefault, log messages (PY-LOG: not part of any result)
         if isinstance(s, ast.Expr) and isinstance(s.value, ast.Constant):
             continue
@@ -530,6 +611,9 @@ def _commutative_body(stmts, fnode=None, loop=None, collected=None, mod=None):
         # (insertion) order: no iteration / items() / values() / keys() / list() of it, only lookups
         if isinstance(s, ast.Assign) and len(s.targets) == 1 and isinstance(s.targets[0], ast.Subscript) \
                 and isinstance(s.targets[0].value, (ast.Name, ast.Attribute)):
+            why = _keyed_store_competes(loop, s.targets[0].slice, s.value) if loop is not None else None
+            if why:                      # the LAST element with that key wins
+                return f"line {s.lineno}: {ast.unparse(s.targets[0].value)}[...] = ...: {why}"
             if mod is None or _only_looked_up(mod, fnode, s.targets[0].value):
                 continue
             return f"line {s.lineno}: {ast.unparse(s.targets[0].value)} is filled in <set> order and iterated elsewhere"
@@ -921,17 +1005,46 @@ def validate_assumed_purity(repo, tier):
     if "mismatches" not in res:
         return {"obligations": [], "undecided": [{"obligation": oid, "why": "native validation did not run: " + str(res.get("note", ""))[:200]}]}
     mm = res["mismatches"]
-    o = ground_obligation(oid, not mm, "; ".join(f"{m[0]}: {m[1]} {m[2]}" for m in mm[:6]) or f"{res.get('fixtures')} documents agree",
+    rec = res.get("recorded") or []
+    o = ground_obligation(oid, not mm, "; ".join(f"{m[0]}: {m[1]} {m[2]}" for m in mm[:6]) or
+                          f"{res.get('fixtures')} documents agree" + (f" (apart from {len(rec)} difference(s) recorded as known finding)" if rec else ""),
                           "package", kind="assumption-validation", backend="native-replay(bounded: repository fixtures + synthetic documents, 2 processes)")
     o["bounded"] = True      # DESIGN 2.8: a bounded stand-in, never counted as discharged
-    o["bound"] = "repository fixtures + replay/C06.py::synth_corpus, 2 fresh processes (PYTHONHASHSEED 1/2, opposite corpus order)"
-    return {"obligations": [o]}
+    o["bound"] = ("repository fixtures + replay/C06.py::synth_corpus, 2 fresh processes (PYTHONHASHSEED 1/2, opposite corpus order, different "
+                  "locale / time zone / working directory / environment)")
+    out = [o]
+    # differences recorded in known_findings.json: one failing obligation per finding, reported under the finding (hook below)
+    for fid in sorted({m[3] for m in rec}):
+        mine = [m for m in rec if m[3] == fid]
+        k = ground_obligation(f"{oid}/recorded[{fid}]", False, "; ".join(f"{m[0]}: {m[1]} {m[2]}" for m in mine[:6]), "package",
+                              kind="assumption-validation", backend="native-replay(bounded)")
+        k["finding"] = fid
+        out.append(volatile(k))
+    return {"obligations": out}
+
+
+def known_findings(kf, violations, repo, tier):
+    """Recorded findings of this pack are differences seen by the native validation run (known_findings.json: `mismatch` = where
+    the runs differ).  A finding is reported as long as the run still shows it and covers exactly its own `recorded[...]`
+    obligation; every other difference stays a violation."""
+    out = []
+    try:
+        vio = {o["id"]: o for o in violations}
+        for f in kf:
+            oid = f"C06/package/assumed-contract-validation#fixtures-identical-across-fresh-processes/recorded[{f['id']}]"
+            still = oid in vio
+            seen = (vio[oid].get("reason") or "")[:200] if still else "-"
+            out.append({"finding": f["id"], "still_fails": still, "covers": [oid] if still else [],
+                        "line": f"finding={f['id']} obligation={oid} observed={seen!r}: {f.get('what', '')[:160]}"})
+    except Exception:  # noqa -- never let the hook fail the check
+        pass
+    return out
 
 
 EXTRA = [policy, validate_assumed_purity]
 BOUNDED = ["assumed-contract-validation#fixtures-identical-across-fresh-processes: all supported fixtures of the repository plus the synthetic "
            "documents of replay/C06.py::synth_corpus (style names colliding under case/length/whitespace keys; image twins differing only in "
-           "their dimension bytes), two fresh processes (PYTHONHASHSEED 1 and 2, opposite corpus order), each document extracted twice with a "
+           "their dimension bytes), two fresh processes (PYTHONHASHSEED 1 and 2, opposite corpus order, different locale / time zone / working directory / environment), each document extracted twice with a "
            "path and twice without, every observer called and every handed-out stream read between two to_json() calls -- a bounded "
            "validation of the purity assumption, not counted as a proof of it"]
 
